@@ -78,7 +78,7 @@ def band_points():
 
 def world_description(tier):
     n = len(band_points())
-    return f"{n} band points -> all ordered pairs start<=end (x fmt x one) + soundness triples; thorough adds the 2^14 lattice"
+    return f"{n} band points -> all ordered pairs start<=end (x fmt x one) + soundness triples; thorough adds the 2^14 lattice and the bands of EVERY multiple of 2^17 up to 2^30"
 
 
 def shards(tier, seed):
@@ -89,6 +89,7 @@ def shards(tier, seed):
     if tier == "thorough":
         out += [{"part": "lattice", "i": i, "n": 32} for i in range(32)]
         out += [{"part": "soundlat", "i": i, "n": 16} for i in range(16)]
+        out += [{"part": "allbands", "i": i, "n": 32} for i in range(32)]
     return out
 
 
@@ -243,6 +244,37 @@ def run_shard(shard):
                     for fmt in ("bed", "gff"):
                         check_one(res, s, s + ln, fmt)
         res.sample({"lattice_step": 1 << 14})
+    elif part == "allbands":
+        # EVERY multiple of 2^17 up to 2^30 (not only the menu m in {0,1,2,7,8,9,last}): all (start,end) with start in the
+        # band of B and end in the band of B + j*2^17 for j spanning the same bin, the next one, and distances that cross a
+        # boundary of each higher level (8, 64, 512, 4096 first-level bins)
+        W = 1 << 17
+        for m in range(0, (1 << 30) >> 17):
+            if m % shard["n"] != shard["i"]:
+                continue
+            B = m << 17
+            for j in (0, 1, 7, 8, 9, 63, 64, 65, 511, 512, 4095, 4096):
+                B2 = B + j * W
+                for ds in (-2, -1, 0, 1, 2):
+                    for de in (-2, -1, 0, 1, 2):
+                        s_, e_ = B + ds, B2 + de
+                        if s_ < 0 or e_ < s_:
+                            continue
+                        check_one(res, s_, e_, "bed")
+                        if e_ > s_:  # (a closed 1-based interval cannot be empty)
+                            check_one(res, s_ + 1, e_, "gff")
+                # soundness on the same band: the window [B-2, B2+2) must offer the bin of every interval of the band pair
+                rb = lib.outcome(bins, max(B - 2, 0), B2 + 2, "bed", False)
+                if rb[0] == "ok" and j in (0, 1, 8, 64):
+                    for ds in (-2, 0, 1):
+                        for de in (-1, 0, 2):
+                            s_, e_ = B + ds, B2 + de
+                            if 0 <= s_ < e_ <= MAXC:
+                                res.trans()
+                                b = bins(s_, e_, fmt="bed", one=True)
+                                if b not in rb[1]:
+                                    res.deviation("bins", {"range": [max(B - 2, 0), B2 + 2], "interval": [s_, e_]}, f"bin {b} not in query bins", "member", sig="bins-unsound-contained")
+        res.sample({"allbands": "every multiple of 2^17 up to 2^30"})
     elif part == "soundlat":
         # soundness on lattice: ranges = aligned/unaligned windows of sizes around each level; intervals inside them
         sizes = [(1 << 17), (1 << 17) + 1, (1 << 20), (1 << 20) - 1, 3 * (1 << 17) + 5, (1 << 23) + 7]
